@@ -10,7 +10,7 @@ From V Require Import Base.Int Base.IO.
 From V Require Model.C01 Model.C01b Model.C02 Model.C03 Model.C04 Model.C05 Model.C06 Model.C07 Model.C08 Model.C09
                Model.C10 Model.C11 Model.C12 Model.C13 Model.C14 Model.C16 Model.C17 Model.C18 Model.C19.
 From V Require Model.Items Model.Strftime Model.Format Model.Scan Model.Parse Model.Parsed
-               Model.Date Model.Time Model.DateTime Model.TimeDelta.
+               Model.Date Model.Time Model.DateTime Model.TimeDelta Gen.ErrText.
 Import ListNotations.
 Open Scope Z_scope.
 
@@ -85,6 +85,37 @@ Definition item_count (s : bytes) (lenient : bool) : val :=
 Definition parse_and_remainder_items (text : bytes) (items : list Model.Items.Item) : val :=
   Model.Parse.val_of_PR (fun pr : Model.Parsed.parsed * bytes => VStr (snd pr))
     (Model.Parse.parse_and_remainder Model.Parsed.parsed_new text items).
+
+(* Display / Debug of the error types: to_string() / format!("{:?}") of a value obtained through the public API.  The texts are
+   the literals of the impls (Gen/ErrText.v).  [which]: 0 ParseError Display ([variant] = ParseErrorKind 0..6 in declaration
+   order), 1 / 2 OutOfRange Display / Debug, 3 / 4 ParseMonthError Display / Debug, 5 / 6 ParseWeekdayError Display / Debug,
+   7 RoundingError Display ([variant] 0..2), 8 OutOfRangeError Display; [variant] = 0 where the type has one value *)
+Definition err_text (which variant : Z) : option bytes :=
+  let one (t : bytes) := if variant =? 0 then Some t else None in
+  let nth (l : list bytes) := if variant <? 0 then None else nth_error l (Z.to_nat variant) in
+  if which =? 0 then nth Gen.ErrText.ET_PARSE_ERROR
+  else if which =? 1 then one Gen.ErrText.ET_OUT_OF_RANGE_DISPLAY
+  else if which =? 2 then one Gen.ErrText.ET_OUT_OF_RANGE_DEBUG
+  else if which =? 3 then one Gen.ErrText.ET_PARSE_MONTH_DISPLAY
+  else if which =? 4 then one Gen.ErrText.ET_PARSE_MONTH_DEBUG
+  else if which =? 5 then one Gen.ErrText.ET_PARSE_WEEKDAY_DISPLAY
+  else if which =? 6 then one Gen.ErrText.ET_PARSE_WEEKDAY_DEBUG
+  else if which =? 7 then nth Gen.ErrText.ET_ROUNDING_ERROR
+  else if which =? 8 then one Gen.ErrText.ET_OUT_OF_RANGE_ERROR
+  else None.
+(* impl fmt::Debug for IsoWeek: "{:04}-W{:02}" for the years 0..=9999, "{:+05}-W{:02}" otherwise *)
+Definition isoweek_debug (d : Z) : R bytes :=
+  let* w := Model.Date.d_iso_week d in
+  let year := Model.Date.iw_year w in
+  let week := Model.Date.iw_week w in
+  if (Gen.ErrText.ET_ISOWEEK_LO <=? year) && (year <=? Gen.ErrText.ET_ISOWEEK_HI)
+  then Val (Model.Format.fmt_int false true 4 year ++ Gen.ErrText.ET_ISOWEEK_SEP ++ Model.Format.fmt_int false true 2 week)
+  else Val (Model.Format.fmt_int true true 5 year ++ Gen.ErrText.ET_ISOWEEK_SEP ++ Model.Format.fmt_int false true 2 week).
+(* impl Debug for WeekdaySet: write!(f, "WeekdaySet({:0>7b})", self.0) -- the 7 bits, most significant first *)
+Fixpoint bin_digits (n : nat) (v : Z) : bytes :=
+  match n with O => [] | S k => (48 + Z.land (Z.shiftr v (Z.of_nat k)) 1) :: bin_digits k v end.
+Definition wdset_debug (bits : Z) : bytes :=
+  Gen.ErrText.ET_WDSET_PRE ++ bin_digits (Z.to_nat Gen.ErrText.ET_WDSET_BITS) bits ++ Gen.ErrText.ET_WDSET_POST.
 
 Definition run_c15 (op : bytes) (args : list val) : val :=
   let d_hmsx (f : Z -> Z -> Z -> Z -> Z -> R (option Model.DateTime.ndt)) :=
@@ -161,6 +192,18 @@ Definition run_c15 (op : bytes) (args : list val) : val :=
           | Some items => parse_and_remainder_items text items
           | None => VBad end
         else VBad
+    | _ => VBad end
+  else if op_is op "c15.errtext" then
+    match args with
+    | [VInt w; VInt v] => match err_text w v with Some t => VStr t | None => VBad end
+    | _ => VBad end
+  else if op_is op "c15.isoweek.dbg" then
+    match args with
+    | [d] => match Model.DateTime.dec_date d with Some d => val_of_R VStr (isoweek_debug d) | None => VBad end
+    | _ => VBad end
+  else if op_is op "c15.wdset.dbg" then
+    match args with
+    | [VInt b] => if (0 <=? b) && (b <? 128) then VStr (wdset_debug b) else VBad
     | _ => VBad end
   else VErr B"NOOP".
 
